@@ -168,6 +168,10 @@ def subRefs (refs : List (Str × Str)) : Nat → Str → Option Str
     | some out => some (c :: out)
     | none => none
 
+/-- `Survey.insert_xpaths(text, context)` (survey.py 1205-1220): every `${name}` becomes its xpath inside the
+    string — the channel of bind / control attribute values (`jr:noAppErrorString`, `bind::x`, …) -/
+def insertXpaths (refs : List (Str × Str)) (v : Str) : Option Str := subRefs refs (v.length + 1) v
+
 /-- `node("output", value=v).toxml()` -/
 def outputXml (v : Str) : Str := "<output value=\"".toList ++ escAttr v ++ "\"/>".toList
 
